@@ -12,6 +12,16 @@ CHECKS = {
          "Trusted: the fixed identifier/tag list (taken from MS-LCID). The table is documented as incomplete, so missing entries are not violations.",
          "DESIGN.md section 4, C17"),
 }
+CHECKS["C14"] = ("exploration",
+  "exhaustive differential: every Unicode scalar x 26 code pages and every 1/2-byte sequence x 26 pages against encoding_rs encodings looked up by WHATWG label; proptest-generated strings across the 1024-byte buffer boundary; exhaustive identifier range",
+  "Exhaustive on the finite sub-spaces named in the property (scalars x pages, 1/2-byte sequences x pages, identifiers -70,000..70,000), generated search on strings and byte strings. Laws: '?'-or-round-trip, compositionality, decode totality and agreement, agreement with the documented encoding, id lookup inverse.",
+  "Trusted: encoding_rs mapping tables (not their assignment to pages). 21 (page, scalar) pairs where the dependency's encoder is lossy are open known findings.",
+  "DESIGN.md section 4, C14")
+CHECKS["C18"] = ("exploration",
+  "enumerated tick-boundary neighbourhoods + proptest-generated times and pairs against an exact integer reference (round-trip within 100 ns, idempotence, monotonicity, saturation), in memory and through save/reopen",
+  "Enumerates every tick boundary +-3 ticks x sub-tick nanoseconds around 1601, 1970 and the tick maximum, then millions of generated times (uniform, log-uniform around the anchors, platform extremes) and near pairs.",
+  "Trusted: std::time arithmetic and the harness's i128 reference arithmetic.",
+  "DESIGN.md section 4, C18")
 NOT_YET = {}
 
 def main():
